@@ -309,16 +309,17 @@ def check_wif(ctx, oid="C14.2"):
     bad_accept, wrong = [], []
     for v in range(256):
         ev.bind = {vb: v}
-        s = ev.run(fd, {"return_dict": True})
-        kind, val = rules.outcome(s)
-        is_raise = kind == "raise" or (kind == "return" and tm.contains(val, lambda t_: isinstance(t_, T) and t_.op == "raise"))
-        if v in back:
-            exp = list(back[v])[0]
-            okv = kind == "return" and isinstance(val, dict) and val.get("network") == exp[0] and val.get("addr_type") == exp[1]
-            if not okv:
-                wrong.append(v)
-        elif not is_raise:
-            bad_accept.append(v)
+        for as_dict in (True, False):  # both result modes refuse unknown versions
+            s = ev.run(fd, {"return_dict": as_dict})
+            kind, val = rules.outcome(s)
+            is_raise = kind == "raise" or (kind == "return" and tm.contains(val, lambda t_: isinstance(t_, T) and t_.op == "raise"))
+            if v in back:
+                exp = list(back[v])[0]
+                okv = kind == "return" and (not as_dict or (isinstance(val, dict) and val.get("network") == exp[0] and val.get("addr_type") == exp[1]))
+                if not okv and v not in wrong:
+                    wrong.append(v)
+            elif not is_raise and v not in bad_accept:
+                bad_accept.append(v)
     ev.bind = {}
     R.check(oid, "DECISION-TABLE", fd, "unknown WIF version bytes are rejected (240 values)", not bad_accept,
             "wif_decode accepts unknown version byte(s) %s" % ", ".join("0x%02x" % v for v in bad_accept[:10]),
